@@ -16,7 +16,7 @@ class C19(Property):
         fws = []
         for n in range(0, 3 if tier == "quick" else 4):
             fws += list(gen.all_digraphs(n))
-        for _ in range(4000 if tier == "quick" else 300000):
+        for _ in range(4000 if tier == "quick" else 900000):
             fws.append(gen.random_framework(rng, 8))
         for (n, atts) in fws:
             if rng.random() < 0.7:
